@@ -29,7 +29,8 @@ package cache
 
 // ---------------------------------------------------------------- cache keys (C02)
 
-// The identity of a stored entry.  Vocabulary (identities of string contents):
+// The identity of a stored entry.  The path that enters the key is the path as written on the
+// wire, escpath(Path, RawPath) = (*url.URL).EscapedPath(): an escaped separator is data.  Vocabulary (identities of string contents):
 // tolower / pathclean / concatid / hassuffix are the library functions on
 // identities, fmtid(format, ...) the identity of fmt.Sprintf's result, hashid /
 // hexid BLAKE2b-256 and hex encoding.  The normalised path is path.Clean of the
@@ -47,7 +48,7 @@ package cache
 //@   nopanic
 //@   pure
 //@   requires r != nil && r.URL != nil
-//@   ensures [C02] sid(result.Hex) == specKeyHex(r.TLS != nil ? sid("https") : sid("http"), sid(r.Method), sid(r.Host), sid(r.URL.Path), sid(r.URL.RawQuery))
+//@   ensures [C02] sid(result.Hex) == specKeyHex(r.TLS != nil ? sid("https") : sid("http"), sid(r.Method), sid(r.Host), escpath(sid(r.URL.Path), sid(r.URL.RawPath)), sid(r.URL.RawQuery))
 
 // L1: equal keys only for equal components (BLAKE2b collision resistance assumed).
 //@ props C02
